@@ -697,10 +697,11 @@ class SymNumpy:
     float64 = float
     pi = math.pi
 
-    def __init__(self, real=None):
+    def __init__(self, real=None, extra=None, linalg=None):
         import numpy
         self.real = real or numpy
-        self.linalg = _Linalg(self)
+        self.linalg = _Linalg(self, linalg or {})
+        self.extra = dict(extra or {})     # contract stubs supplied by a property module (e.g. allclose as a recorder)
 
     def exp(self, x):
         if is_arr(x):
@@ -840,14 +841,21 @@ class SymNumpy:
         return DiagView(x)
 
     def __getattr__(self, name):
+        extra = self.__dict__.get("extra", {})
+        if name in extra:
+            return extra[name]
         raise OutsideSubset("numpy.%s is not modelled by the stub" % name)
 
 
 class _Linalg:
-    def __init__(self, np_):
+    def __init__(self, np_, funcs):
         self.np = np_
+        self.funcs = funcs
 
     def __getattr__(self, name):
+        funcs = self.__dict__.get("funcs", {})
+        if name in funcs:
+            return funcs[name]
         raise OutsideSubset("numpy.linalg.%s is not modelled by the stub" % name)
 
 
